@@ -1131,6 +1131,18 @@ func (rn *Runner) Run() {
 		})
 		r.Emit("ret", "op", "RawAuth", "err", aerr != nil, "elapsed", el, "text", clip(aerr))
 		r.Emit("authret")
+		if cfg.Variant == "authretry" && aerr != nil && sc2 != nil {
+			// the caller tries again on the same smtp.Client (other credentials, a retry after a transient refusal): the
+			// records of the second exchange are redacted like those of the first (the design model stops at the first
+			// return: the extra commands show up as conformance drift of this stage, not as a verdict)
+			var aerr2 error
+			el2 := rn.timed(func() { aerr2 = sc2.Auth(rawMech(cfg.Authtype, host)) })
+			r.Emit("ret", "op", "RawAuth2", "err", aerr2 != nil, "elapsed", el2, "text", clip(aerr2))
+			r.Emit("authret")
+			if aerr2 == nil {
+				aerr = nil
+			}
+		}
 		if aerr != nil && sc2 != nil && !sc2.HasConnection() {
 			// Auth gave up and closed the connection; whatever the caller does next is logged normally again
 			// (the line is logged before the write fails)
